@@ -408,6 +408,11 @@ static void MutStructure(const Base & B, const Base & O, std::vector<Bytes> & u,
       m.desc = "special bytes / long run inserted"; return;
    }
    // packet lists
+   if (e == E_TUNNEL && R(4) == 0) {   // fragments of one Message that disagree about its total size (ids and offsets stay in sequence)
+      std::vector<std::pair<uint32_t, uint32_t> > tw; for (uint32_t i = 0; i < B.units.size() && i < u.size(); i++) for (size_t w = 0; w < B.words[i].size(); w++) if (!strcmp(B.words[i][w].role, "tun-total")) tw.push_back(std::make_pair(i, B.words[i][w].off));
+      if (!tw.empty()) { const std::pair<uint32_t, uint32_t> & x = tw[R((uint32_t)tw.size())]; const uint32_t v = rd32(u[x.first], x.second), c = rd32(u[x.first], x.second - 4); static const int32_t D[] = {-1, -4, -8, -16, -100, 1, 8, 100};
+         const uint32_t nv = R(3) == 0 ? c + R(9) : v + (uint32_t)D[R(8)]; wr32(u[x.first], x.second, nv); if (R(2)) u.insert(u.begin() + x.first, B.units[x.first]); m.role = "tun-total"; m.desc = vh::fmt("packet %u: total size %u -> %u, chunk %u%s", x.first, v, nv, c, ""); return; }
+   }
    const uint32_t k = R(6), n = (uint32_t)u.size();
    if (k == 0) { const uint32_t i = R(n); u.insert(u.begin() + i, u[i]); m.desc = "duplicate a packet"; }
    else if (k == 1) { u.erase(u.begin() + R(n)); m.desc = "drop a packet"; }
@@ -570,18 +575,41 @@ static void CheckParserCost(const char * entry, size_t N, bool validInput)
 }
 static void Tally(const char * entry, bool accepted) { vh::stat(std::string(accepted ? "accepted_" : "rejected_") + entry); }
 
+// "a parser that fails leaves its object destructible and reusable": after a FAILED parse the object is an ordinary object of its type.
+// Its content is unspecified, but walking it, sizing, flattening into an exact-size buffer, re-parsing that, printing, copying, adding a
+// field and flattening again must neither crash nor abort nor make a sanitizer speak.
+static void PostFailureUse(Message & m, const char * entry)
+{
+   vh::stat(std::string("post_failure_object_walks_") + entry);
+   UseMessage(m); if (caseBad) return;
+   { const Bytes f = FlatBytes(m); Exact fx(f); Message d; if (d.UnflattenFromBytes(fx.p, fx.n).IsError()) { Fail(std::string("post-failure-reparse|") + entry, "what the object flattens to after a failed parse is rejected by the parser"); return; } }
+   (void)m.AddInt32("added_after_failure", 1); (void)m.AddString("added_after_failure_2", "x"); { Message sub(1); (void)m.AddMessage("added_after_failure_3", sub); }
+   const uint32 fs = m.FlattenedSize(); Bytes o(fs, '\0'); { Exact ex(o); m.FlattenToBytes(ex.p, fs); Touch(ex.p, fs); Message d; if (d.UnflattenFromBytes(ex.p, fs).IsError()) Fail(std::string("post-failure-reparse|") + entry, "after adding fields to the object of a failed parse its encoding is rejected"); }
+   gSink += m.CalculateChecksum(); if (fs < 20000) m.Print(devnull); { Message c; c = m; gSink += c.FlattenedSize(); }
+}
+static void UseMini(const MMessage * mm);
+static void PostFailureUseMini(MMessage * mm)
+{
+   vh::stat("post_failure_object_walks_mini");
+   UseMini(mm); if (caseBad) return;
+   int32 * p = MMPutInt32Field(mm, MFalse, "added_after_failure", 2); if (p) { p[0] = 1; p[1] = 2; }
+   MByteBuffer ** sp = MMPutStringField(mm, MFalse, "added_after_failure_2", 1); if (sp) sp[0] = MBStrdupByteBuffer("x");
+   UseMini(mm);
+}
 static void FeedMsg(const Bytes & in, bool validInput)
 {
    Exact ex(in); Message m; const bool pre = R(4) == 0; if (pre) { (void)m.AddString("old", "content"); (void)m.AddInt32("old2", 5); (void)m.AddMessage("old3", Message(3)); }
-   const uint32_t how = R(4); status_t r; MessageRef pooled;
+   const uint32_t how = R(5); status_t r; MessageRef pooled;
    MBegin();
    if (how == 0) { DataUnflattener uf(ex.p, ex.n); r = m.Unflatten(uf); }
    else if (how == 1) { pooled = GetMessageFromPool(ex.p, ex.n); r = pooled.GetStatus(); if (pooled() == NULL && r.IsOK()) r = B_ERROR; }
+   else if (how == 3) { ByteBufferRef bb = GetByteBufferFromPool(ex.n, ex.p); if (bb() == NULL) { fprintf(stderr, "HARNESS-ABORT: GetByteBufferFromPool\n"); abort(); } r = m.UnflattenFromByteBuffer(bb); }
    else r = m.UnflattenFromBytes(ex.p, ex.n);
    MEnd();
    CheckParserCost("msg", in.size(), validInput); Tally("msg", r.IsOK());
    if (validInput && r.IsError()) Fail("valid-rejected|msg", std::string("a valid encoding is rejected: ") + r());
-   if (r.IsOK()) UseMessage(how == 1 ? *pooled() : m);
+   if (r.IsOK()) UseMessage(how == 1 ? *pooled() : m); else if (how != 1) PostFailureUse(m, "msg");
+   if (caseBad) return;
    if (how != 1 && (r.IsError() || R(4) == 0)) {   // destructible and reusable: parse a valid buffer into the same object
       const Bytes & v = ReuseBytes(); Exact vx(v); status_t r2 = m.UnflattenFromBytes(vx.p, vx.n);
       if (r2.IsError() || FlatBytes(m) != v) Fail("not-reusable|msg", std::string("after ") + r() + " the object does not take a valid buffer: " + r2());
@@ -594,7 +622,8 @@ static void FeedTmsg(const Base & B, const Bytes & in, bool alt, bool validInput
    MBegin(); { DataUnflattener uf(ex.p, ex.n); r = m.TemplatedUnflatten(T, uf); } MEnd();
    CheckParserCost("tmsg", in.size() + (alt ? B.tmpl2()->FlattenedSize() : B.tmplSize), validInput); Tally("tmsg", r.IsOK());
    if (validInput && r.IsError()) vh::stat("tmsg_valid_payload_rejected");   // fidelity of the templated encoding is C01's subject
-   if (r.IsOK()) UseMessage(m);
+   if (r.IsOK()) UseMessage(m); else PostFailureUse(m, "tmsg");
+   if (caseBad) return;
    if (r.IsError() || R(4) == 0) {
       if (R(2)) { const Bytes & v = ReuseBytes(); Exact vx(v); status_t r2 = m.UnflattenFromBytes(vx.p, vx.n); if (r2.IsError() || FlatBytes(m) != v) Fail("not-reusable|tmsg", std::string("after ") + r() + ": " + r2()); }
       else { Exact vx(B.units[0]); DataUnflattener uf(vx.p, vx.n); status_t r2 = m.TemplatedUnflatten(*B.tmpl(), uf); if (r2.IsOK()) UseMessage(m); }
@@ -608,8 +637,8 @@ static void FeedMini(const Bytes & in, bool validInput)
    MBegin(); const c_status_t r = MMUnflattenMessage(mm, ex.p, ex.n); MEnd();
    CheckParserCost("mini", in.size(), validInput); Tally("mini", r == CB_NO_ERROR);
    if (validInput && r != CB_NO_ERROR) vh::stat("mini_valid_rejected");   // cross-codec agreement is C08's subject
-   if (r == CB_NO_ERROR) UseMini(mm);
-   if (r != CB_NO_ERROR || R(4) == 0) { const Bytes & v = ReuseBytes(); Exact vx(v); if (MMUnflattenMessage(mm, vx.p, vx.n) != CB_NO_ERROR || MMGetFlattenedSize(mm) != v.size()) Fail("not-reusable|mini", "after a parse the MMessage does not take a valid buffer"); else UseMini(mm); vh::stat(r != CB_NO_ERROR ? "reuse_after_failure" : "reuse_after_success"); }
+   if (r == CB_NO_ERROR) UseMini(mm); else PostFailureUseMini(mm);
+   if (!caseBad && (r != CB_NO_ERROR || R(4) == 0)) { const Bytes & v = ReuseBytes(); Exact vx(v); if (MMUnflattenMessage(mm, vx.p, vx.n) != CB_NO_ERROR || MMGetFlattenedSize(mm) != v.size()) Fail("not-reusable|mini", "after a parse the MMessage does not take a valid buffer"); else UseMini(mm); vh::stat(r != CB_NO_ERROR ? "reuse_after_failure" : "reuse_after_success"); }
    MMFreeMessage(mm);
 }
 static void FeedMicro(const Bytes & in, bool validInput)
@@ -868,6 +897,12 @@ static void Regress2(long k)
    { for (int which = 0; which < 3; which++) { Bytes p; put32(p, 1); if (which == 0) put32(p, 0); else if (which == 1) { put32(p, 3); p += "abc"; } else { put32(p, 4); p += Bytes("ab\0c", 4); }
        const Bytes b = OneField("s", B_STRING_TYPE, p); Exact ex(b); MMessage * mm = MMAllocMessage(0); if (MMUnflattenMessage(mm, ex.p, ex.n) == CB_NO_ERROR) { vh::stat("regress_mini_unterminated_accepted"); UseMini(mm); } MMFreeMessage(mm);
        Message m; Exact e2(b); if (m.UnflattenFromBytes(e2.p, e2.n).IsOK()) UseMessage(m); } }
+   RegressCase("failed TemplatedUnflatten / Unflatten / MMUnflattenMessage (every truncation of a valid encoding), then the object is used as an ordinary one", k++);
+   { Message src(5); Message s1(1); (void)s1.AddInt32("a", 1); (void)s1.AddString("t", "xy"); (void)src.AddString("first", "string one"); (void)src.AddString("first", "string two"); (void)src.AddMessage("subs", s1); (void)src.AddMessage("subs", s1); (void)src.AddInt64("z", 7); (void)src.AddMessage("last", s1);
+     MessageRef T = src.CreateMessageTemplate(); if (T() == NULL) { fprintf(stderr, "HARNESS-ABORT: template\n"); abort(); } const uint32 sz = src.TemplatedFlattenedSize(*T()); Bytes p(sz, '\0'); src.TemplatedFlatten(*T(), DataFlattener((uint8 *)&p[0], sz));
+     long failed = 0; for (uint32 cut = 0; cut < sz && !caseBad; cut++) { const Bytes q = p.substr(0, cut); Exact qx(q); DataUnflattener uf(qx.p, qx.n); Message r; if (cut & 1) (void)r.AddString("old", "content"); if (r.TemplatedUnflatten(*T(), uf).IsError()) { failed++; PostFailureUse(r, "tmsg"); } else UseMessage(r); }
+     const Bytes v = FlatBytes(src); for (size_t cut = 0; cut < v.size() && !caseBad; cut++) { const Bytes q = v.substr(0, cut); Exact qx(q); Message r; if (r.UnflattenFromBytes(qx.p, qx.n).IsError()) { failed++; PostFailureUse(r, "msg"); } MMessage * mm = MMAllocMessage(0); if (MMUnflattenMessage(mm, qx.p, qx.n) != CB_NO_ERROR) { failed++; PostFailureUseMini(mm); } MMFreeMessage(mm); }
+     vh::stat("regress_post_failure_walks", failed); if (failed < 100) Fail("regress-post-failure", "too few truncations were rejected to witness anything"); }
    RegressCase("TelnetPlainTextMessageIOGateway: Reset() inside a telnet sub-negotiation / command, then a valid line", k++);
    { static const char * const pre[] = {"\xff\xfa", "\xff", "\xff\xfb", "abc\xff\xfa\x01\x02"}; for (int i = 0; i < 4; i++) { TelnetPlainTextMessageIOGateway gw; Rx rx(DG_TEXT); (void)PumpStream(gw, pre[i], rx, true); gw.Reset(); Rx rx2(DG_TEXT); (void)PumpStream(gw, "hello\r\n", rx2, true); if (rx2.digest != "hello\n") Fail("regress-telnet-reset", vh::fmt("after [%s] and Reset() the line 'hello' arrives as %zu digest bytes", vh::hex(pre[i], strlen(pre[i])).c_str(), rx2.digest.size())); } }
    RegressCase("WebSocketMessageIOGateway: Reset() inside a frame header / payload, then a valid frame stream", k++);
